@@ -84,12 +84,42 @@ def random_history(rng):
     return out
 
 
+def grid_histories(rng, n):
+    """fragmented pictures on slice grids with SEVERAL ROWS (2x2, 3x2): continuation fragments with the right offsets,
+    skipped / repeated / swapped ones, and offsets OUTSIDE the grid whose linear index y*slices_x+x happens to be the
+    expected one (x >= slices_x) -> [(config, history)]"""
+    out = []
+    for i in range(n):
+        sx, sy = rng.choice([(2, 2), (2, 2), (3, 2)])
+        cfg = S.Config(profile=rng.choice(["hq", "ld"]), pcm=0, major_version=rng.choice([None, 3]), slices=(sx, sy))
+        num = rng.choice([0, 7])
+        hist = ["H0", "F%d" % num]
+        got = 0
+        while got < sx * sy:
+            cnt = rng.choice([1, 1, 2]) if got + 2 <= sx * sy else 1
+            x, y = got % sx, got // sx
+            c = rng.random()
+            if c < 0.25 and y > 0:
+                x, y = x + sx * y, 0                   # same linear index, outside the grid
+            elif c < 0.32:
+                x, y = y, x                            # swapped
+            elif c < 0.38:
+                x, y = (got + 1) % sx, (got + 1) // sx  # skipped one
+            elif c < 0.42 and y + 1 < sy and x >= 0:
+                x, y = x + sx, y - 1 if y else 0
+            hist.append("D%d.%d.%d.%d" % (num, cnt, x, y))
+            got += cnt
+        hist.append("E")
+        out.append((cfg, hist))
+    return out
+
+
 class Prop(object):
     id = "C01"
     lean_modules = ["VC2.Props.C01", "VC2.Props.C01History"]
     status = "full"
     rule = ("abstract data-unit histories (sequence headers identical/differing, pictures, other-profile pictures, first/continuation "
-            "fragments with slice counts/offsets, padding, auxiliary data, end of sequence; correct/zero/wrong/short parse offsets; picture numbers "
+            "fragments with slice counts/offsets (also on 2x2 and 3x2 slice grids, with offsets outside the grid whose linear index is the expected one), padding, auxiliary data, end of sequence; correct/zero/wrong/short parse offsets; picture numbers "
             "consecutive/skipped/repeated/wrapping) x profiles x frame/field coding x major versions {auto,1,2,3} x the distinct real level patterns, "
             "rendered to bytes with the REAL encoder+serialiser (offsets patched at byte level) and validated by the REAL validator; the exception "
             "class (or OK / CRASH) and decoded picture numbers are compared with the model. Exhaustive over a reduced alphabet up to length 4 (5 thorough); random beyond")
@@ -123,10 +153,11 @@ class Prop(object):
         cfgs = list(configs())
         pats = level_pattern_choices()
         i = 0
-        for hist in self.histories(ctx, rng):
+        todo = [(None, h) for h in self.histories(ctx, rng)] + grid_histories(rng, ctx.n(300, 3000))
+        for gcfg, hist in todo:
             i += 1
-            cfg = cfgs[i % len(cfgs)] if i % 3 else S.Config()
-            lvl, pat = pats[(i // 7) % len(pats)] if i % 5 == 0 else pats[0]
+            cfg = gcfg if gcfg is not None else (cfgs[i % len(cfgs)] if i % 3 else S.Config())
+            lvl, pat = pats[(i // 7) % len(pats)] if (i % 5 == 0 and gcfg is None) else pats[0]
             try:
                 res, pics, line, data = real_and_line(cfg, hist, pat)
             except Exception as e:  # a history the real serialiser cannot render
@@ -148,7 +179,7 @@ class Prop(object):
             if g.startswith("DESYNC"):
                 g = "DESYNC pics=" + g.split("pics=")[1]
             if want != g:
-                bad.append({"history": hist, "profile": cfg.profile, "pcm": cfg.pcm, "major_version": cfg.major_version,
+                bad.append({"history": hist, "profile": cfg.profile, "pcm": cfg.pcm, "major_version": cfg.major_version, "slices": list(cfg.slices),
                             "level_pattern": pat, "impl": want, "model": g})
         ctx.traces += len(lines)
         ctx.corr_names.append("vd abstract histories -> real bytes -> real validator verdict == model verdict")
@@ -169,7 +200,7 @@ class Prop(object):
             if ok != (res == "OK") and not desync:
                 nref += 1
                 if nref == 1:
-                    self._refbad = {"history": hist, "profile": cfg.profile, "pcm": cfg.pcm, "major_version": cfg.major_version,
+                    self._refbad = {"history": hist, "profile": cfg.profile, "pcm": cfg.pcm, "major_version": cfg.major_version, "slices": list(cfg.slices),
                                     "level_pattern": pat, "bytes": data.hex(),
                                     "why": "validator says %s, the structure rules say %s (%s)" % (res, "conformant" if ok else "not conformant", why)}
                 if nref <= 3:
@@ -223,9 +254,11 @@ class Prop(object):
         for b in ctx.broken:  # disagreeing histories of the correspondence first
             if b["kind"] == "correspondence" and isinstance(b["detail"], dict):
                 for d in b["detail"].get("first", []):
-                    cands.append((d["history"], S.Config(profile=d["profile"], pcm=d["pcm"], major_version=d["major_version"]), d.get("level_pattern")))
+                    cands.append((d["history"], S.Config(profile=d["profile"], pcm=d["pcm"], major_version=d["major_version"], slices=tuple(d.get("slices", (2, 1)))), d.get("level_pattern")))
         for (hist, cfg, pat), _ in getattr(self, "_results", []):
             cands.append((hist, cfg, pat))
+        for cfg, hist in grid_histories(rng, ctx.n(300, 3000)):
+            cands.append((hist, cfg, None))
         for i in range(ctx.n(3000, 30000)):
             cands.append((random_history(rng), cfgs[i % len(cfgs)], None))
         for hist, cfg, pat in cands:
@@ -234,7 +267,7 @@ class Prop(object):
             except Exception:
                 continue
             if why:
-                return {"history": hist, "profile": cfg.profile, "pcm": cfg.pcm, "major_version": cfg.major_version,
+                return {"history": hist, "profile": cfg.profile, "pcm": cfg.pcm, "major_version": cfg.major_version, "slices": list(cfg.slices),
                         "level_pattern": pat, "bytes": data.hex(), "why": why}
         return None
 
@@ -245,7 +278,7 @@ class Prop(object):
         if not fi:
             print("replay names broken obligations only:", r.get("broken_obligations"))
             return 1
-        cfg = S.Config(profile=fi["profile"], pcm=fi["pcm"], major_version=fi["major_version"])
+        cfg = S.Config(profile=fi["profile"], pcm=fi["pcm"], major_version=fi["major_version"], slices=tuple(fi.get("slices", (2, 1))))
         why, data = self.check_one(cfg, fi["history"], fi.get("level_pattern"))
         print("replay %s -> %s" % (fi["history"], why or "property holds"))
         return 1 if why else 0
